@@ -16,6 +16,7 @@ import (
 	"bytes"
 	"compress/gzip"
 	"fmt"
+	"io"
 	"net/http"
 	"net/http/httptest"
 	"net/url"
@@ -241,9 +242,17 @@ func newCatalogue() (*meta.Data, error) {
 }
 
 func newHandler(data *meta.Data, blockSize int) (*httpd.Handler, *metaclient.Client) {
+	return newHandlerMax(data, blockSize, 0)
+}
+
+// newHandlerMax: maxBody > 0 sets max-body-size.
+func newHandlerMax(data *meta.Data, blockSize, maxBody int) (*httpd.Handler, *metaclient.Client) {
 	startWorkers.Do(influx.StartUnmarshalWorkers)
 	c := hconfig.NewConfig()
 	c.AuthEnabled = false
+	if maxBody > 0 {
+		c.MaxBodySize = maxBody
+	}
 	if blockSize > 0 {
 		c.ReadBlockSize = toml.Size(blockSize)
 	}
@@ -303,6 +312,37 @@ type writeReq struct {
 	body   []byte
 	gzip   bool
 	v2     bool // /api/v2/write?bucket=db/rp
+	// the body source: nil = the whole body with its length announced; else a reader of unknown
+	// length (chunked upload) that may fail after some bytes
+	src io.Reader
+	// gzipHeader: src already is a gzip stream
+	gzipHeader bool
+}
+
+// failingReader delivers data in chunks and ends with err (nil: io.EOF).
+type failingReader struct {
+	data  []byte
+	chunk int
+	err   error
+}
+
+func (r *failingReader) Read(p []byte) (int, error) {
+	if len(r.data) == 0 {
+		if r.err != nil {
+			return 0, r.err
+		}
+		return 0, io.EOF
+	}
+	n := len(r.data)
+	if r.chunk > 0 && n > r.chunk {
+		n = r.chunk
+	}
+	if n > len(p) {
+		n = len(p)
+	}
+	copy(p, r.data[:n])
+	r.data = r.data[n:]
+	return n, nil
 }
 
 func (w *writeReq) target() string {
@@ -344,8 +384,12 @@ func serveWriteReq(h *httpd.Handler, w *writeReq) writeResp {
 		_ = zw.Close()
 		body = zb.Bytes()
 	}
-	req := httptest.NewRequest("POST", w.target(), bytes.NewReader(body))
-	if w.gzip {
+	var rd io.Reader = bytes.NewReader(body)
+	if w.src != nil {
+		rd = w.src
+	}
+	req := httptest.NewRequest("POST", w.target(), rd)
+	if w.gzip || w.gzipHeader {
 		req.Header.Set("Content-Encoding", "gzip")
 	}
 	rr := httptest.NewRecorder()
